@@ -143,6 +143,12 @@ fn expand_args(line: &str, args: &[String]) -> String {
     parsers::parser_line::tokens_to_line(&tokens)
 }
 
+/// verification hook: the script path's positional-parameter pass, as run_exp applies it
+#[cfg(cicada_verif)]
+pub fn verif_expand_args(line: &str, args: &[String]) -> String {
+    expand_args(line, args)
+}
+
 fn expand_line_to_toknes(line: &str,
                          args: &[String],
                          sh: &mut shell::Shell) -> types::Tokens {
